@@ -244,6 +244,9 @@ func withProbes(p *Program) []Step {
 		// who holds what now, and again one unit later (shows a TTL that is shorter than granted)
 		for round := 0; round < 2; round++ {
 			if round == 1 {
+				if p.Variant != "redis" { // only the redis service lets others change a lock's TTL
+					break
+				}
 				steps = append(steps, Step{O: "-", Op: "Tick", Ks: []int{}})
 			}
 			for _, o := range p.Owners {
